@@ -10,6 +10,8 @@ Requests:
   op <operator> <a> <b>      the six comparison operators, `<=>`, `>=<`
   ext min|max <list>         `min`/`max` over the elements
   sort <seq>                 `sort`
+  sorton <fn> <seq>          `sort_on(seq, fn)`, fn from the `keyFn` table
+  sortby <cmp> <seq>         `sort(seq, cmp)`, cmp from the `cmpFn` table
   nmin|nmax <a> <b>          `NNum::min` / `NNum::max` (Rust API)
   teq <a> <b>                `NNum::total_eq`
 Response: `<impl>\t<spec>\t<diagnostics>`. -/
@@ -225,6 +227,15 @@ def handle (args : List String) : String :=
   | ["sort", l] =>
     match parseVal l with
     | some v => renderOut (sortVal v) ++ "\t" ++ renderOut (OrdSpec.sortVal v) ++ "\t-"
+    | none => "bad-op"
+  | ["sorton", fname, l] =>
+    match parseVal l with
+    | some v => renderOut (sortOnVal ncmp (keyFn fname) v) ++ "\t" ++ renderOut (sortOnVal OrdSpec.ncmp (keyFn fname) v) ++ "\t-"
+    | none => "bad-op"
+  | ["sortby", cname, l] =>
+    match parseVal l with
+    | some v => renderOut (sortByVal ncmp (cmpFn ncmp cname) v) ++ "\t" ++
+        renderOut (sortByVal OrdSpec.ncmp (cmpFn OrdSpec.ncmp cname) v) ++ "\t-"
     | none => "bad-op"
   | ["nmin", a, b] =>
     match parseVal a, parseVal b with
